@@ -118,6 +118,10 @@ use std::fmt::Display;
 pub use num_complex;
 pub use num_traits;
 
+#[cfg(rustfft_verif)]
+#[macro_use]
+pub mod verif_hooks;
+
 #[macro_use]
 mod common;
 
